@@ -38,6 +38,8 @@ def _alphabet() -> Dict[str, Dict[str, Any]]:
     op("linear:F_bias_pos", "F.linear", "F.linear({h}, self.w{i}, self.b{i})", lambda h, m, i: ((h, g(m, "w", i), g(m, "b", i)), {}), WB)
     op("linear:F_bias_kw", "F.linear", "F.linear({h}, self.w{i}, bias=self.b{i})", lambda h, m, i: ((h, g(m, "w", i)), {"bias": g(m, "b", i)}), WB)
     op("linear:F_weight_kw", "F.linear", "F.linear({h}, weight=self.w{i}, bias=self.b{i})", lambda h, m, i: ((h,), {"weight": g(m, "w", i), "bias": g(m, "b", i)}), WB)
+    op("linear:F_all_kw", "F.linear", "F.linear(input={h}, weight=self.w{i}, bias=self.b{i})",
+       lambda h, m, i: ((), {"input": h, "weight": g(m, "w", i), "bias": g(m, "b", i)}), WB)
     op("linear:nn", "F.linear", "self.lin{i}({h})", lambda h, m, i: ((h, g(m, "lin", i).weight, g(m, "lin", i).bias), {}),
        ["self.lin{i} = nn.Linear(D, D)"], module=True)
     op("linear:nn_nobias", "F.linear", "self.lin{i}({h})", lambda h, m, i: ((h, g(m, "lin", i).weight, None), {}),
@@ -55,9 +57,11 @@ def _alphabet() -> Dict[str, Dict[str, Any]]:
         op(f"{pre}:causal_kw", fn, fn + "({h}, {h}, {h}, is_causal=True)", lambda h, m, i: ((h, h, h), {"is_causal": True}))
         op(f"{pre}:mask_pos", fn, fn + "({h}, {h}, {h}, self.mask{i})", lambda h, m, i: ((h, h, h, g(m, "mask", i)), {}), MASK)
         op(f"{pre}:mask_kw", fn, fn + "({h}, {h}, {h}, attn_mask=self.mask{i})", lambda h, m, i: ((h, h, h), {"attn_mask": g(m, "mask", i)}), MASK)
+        op(f"{pre}:all_kw", fn, fn + "(query={h}, key={h}, value={h})", lambda h, m, i: ((), {"query": h, "key": h, "value": h}))
         op(f"{pre}:dropout0_kw", fn, fn + "({h}, {h}, value={h}, dropout_p=0.0)", lambda h, m, i: ((h, h), {"value": h, "dropout_p": 0.0}))
     # ---- mapped elementwise / norms (functional and torch.nn wrappers)
     op("gelu:F", "F.gelu", "F.gelu({h})", lambda h, m, i: ((h,), {}))
+    op("gelu:F_kw", "F.gelu", "F.gelu(input={h})", lambda h, m, i: ((), {"input": h}))
     op("gelu:F_tanh", "F.gelu", "F.gelu({h}, approximate='tanh')", lambda h, m, i: ((h,), {"approximate": "tanh"}))
     op("gelu:nn", "F.gelu", "self.act{i}({h})", lambda h, m, i: ((h,), {"approximate": "none"}), ["self.act{i} = nn.GELU()"], module=True)
     op("silu:F", "F.silu", "F.silu({h})", lambda h, m, i: ((h,), {}))
@@ -84,6 +88,10 @@ def _alphabet() -> Dict[str, Dict[str, Any]]:
     op("tanh", "torch.tanh", "torch.tanh({h})", lambda h, m, i: ((h,), {}))
     op("relu", "F.relu", "F.relu({h})", lambda h, m, i: ((h,), {}))
     op("mul_scalar", "mul", "{h} * 1.5", lambda h, m, i: ((h, 1.5), {}))
+    # scale ratios just inside / outside the tolerance window of rtol = 2^-2 (1.25 < 1.3 <= 4/3; 1.35 outside)
+    op("mul_1p3", "mul", "{h} * 1.3", lambda h, m, i: ((h, 1.3), {}))
+    op("div_1p3", "div", "{h} / 1.3", lambda h, m, i: ((h, 1.3), {}))
+    op("mul_1p35", "mul", "{h} * 1.35", lambda h, m, i: ((h, 1.35), {}))
     op("neg", "neg", "-{h}", lambda h, m, i: ((h,), {}))
     op("reshape", "reshape", "{h}.reshape(B, S, 2, D // 2).reshape(B, S, D)", lambda h, m, i: ((h,), {}))
     op("view_t", "view_t", "{h}.transpose(0, 1).contiguous().transpose(0, 1)", lambda h, m, i: ((h,), {}))
@@ -300,7 +308,7 @@ class Semantics:
             "F.mse_loss": F.mse_loss, "F.cross_entropy": F.cross_entropy, "custom_gelu": F.gelu,
             "gate_softmax": lambda h: h * F.softmax(h, dim=-1),
             "hand_scaled": lambda h: U.scale_fwd(U.scale_bwd(h, 0.5) * 2.0, 0.25),
-            "mul": lambda a, b: a * b, "neg": lambda a: -a,
+            "mul": lambda a, b: a * b, "div": lambda a, b: a / b, "neg": lambda a: -a,
             "reshape": lambda h: h.reshape(B, S, 2, D // 2).reshape(B, S, D),
             "view_t": lambda h: h.transpose(0, 1).contiguous().transpose(0, 1),
             "rotate_half": lambda h: torch.cat([-h[..., D // 2:], h[..., : D // 2]], dim=-1),
